@@ -39,7 +39,7 @@ import (
 	"strings"
 )
 
-const version = "vinstr-11"
+const version = "vinstr-12"
 
 var (
 	repo    = flag.String("repo", "/repo", "repository root")
@@ -220,6 +220,9 @@ func instrumentPackage(fset *token.FileSet, imp types.Importer, pj pkgJob, overl
 				}
 			}
 		}
+		if r.rewriteTime(af) {
+			r.used = true
+		}
 		if reset := globalResetInit(af); reset != nil {
 			af.Decls = append(af.Decls, reset)
 			r.used = true
@@ -267,6 +270,54 @@ func instrumentPackage(fset *token.FileSet, imp types.Importer, pj pkgJob, overl
 	}
 	sort.Strings(wl)
 	os.WriteFile(filepath.Join(*out, "tracked-"+pkg.Name()+".txt"), []byte(strings.Join(wl, "\n")+"\n"), 0o644)
+}
+
+// rewriteTime puts time behind the scheduler's seam: context.WithTimeout / WithDeadline and time.Sleep in the code
+// under test become vsched calls (inside a controlled execution the expiry instant is a scheduling choice);
+// timers the scheduler does not own stop the run instead of being ignored.
+func (r *rw) rewriteTime(af *ast.File) bool {
+	changed := map[string]bool{}
+	ast.Inspect(af, func(n ast.Node) bool {
+		call, ok := n.(*ast.CallExpr)
+		if !ok {
+			return true
+		}
+		sel, ok := call.Fun.(*ast.SelectorExpr)
+		if !ok {
+			return true
+		}
+		id, ok := sel.X.(*ast.Ident)
+		if !ok {
+			return true
+		}
+		pn, ok := r.info.Uses[id].(*types.PkgName)
+		if !ok {
+			return true
+		}
+		switch pn.Imported().Path() {
+		case "context":
+			if sel.Sel.Name == "WithTimeout" || sel.Sel.Name == "WithDeadline" {
+				call.Fun = &ast.SelectorExpr{X: ident("vsched"), Sel: ident(sel.Sel.Name)}
+				changed[id.Name+" context.Context"] = true
+			}
+		case "time":
+			switch sel.Sel.Name {
+			case "Sleep":
+				call.Fun = &ast.SelectorExpr{X: ident("vsched"), Sel: ident("Sleep")}
+				changed[id.Name+" time.Duration"] = true
+			case "After", "AfterFunc", "NewTimer", "NewTicker", "Tick":
+				unsupported(r.fset, call.Pos(), "time."+sel.Sel.Name+" (a timer the controlled scheduler does not own)")
+			}
+		}
+		return true
+	})
+	// keep the imports used
+	for k := range changed {
+		parts := strings.SplitN(k, " ", 2)
+		typ := strings.SplitN(parts[1], ".", 2)[1]
+		af.Decls = append(af.Decls, &ast.GenDecl{Tok: token.VAR, Specs: []ast.Spec{&ast.ValueSpec{Names: []*ast.Ident{ident("_")}, Type: &ast.SelectorExpr{X: ident(parts[0]), Sel: ident(typ)}}}})
+	}
+	return len(changed) > 0
 }
 
 // globalResetInit builds, for a file that declares package-level variables, the declaration
